@@ -362,7 +362,10 @@ CORPUS = [
       ("date", "٢٠٠٩-01-16"), ("date", "2009-1-16"), ("date", "2009-01-16T"),
       ("dur", "1ſ"), ("dur", "1 ſeconds"), ("dur", "5dayſ"), ("dur", "٣days"), ("dur", "123"), ("dur", "2kumquats"),
       ("dur", " 333 second "), ("dur", "1 day\n"), ("dur", "1 day"), ("dur", "1d ay"), ("dur", ""), ("dur", "1.5 days"),
-      ("dur", "-1 day"), ("dur", "1 dayss"), ("dur", "1 mos"), ("dur", "5K"), ("dur", "1 ı"),
+      ("dur", "-1 day"), ("dur", "1 dayss"), ("dur", "1 mos"),
+      # seed C48-c (end anchor of the duration pattern lost: prefix acceptance)
+      ("dur", "1 month 15 days"), ("dur", "1 day 12 hours"), ("dur", "45 days # was 31"), ("dur", "1 year;"), ("dur", "3 mon"),
+      ("dur", "10 sec"), ("dur", "1 solar year"), ("dur", "2 moons"), ("dur", "7days\n7days"), ("dur", "5K"), ("dur", "1 ı"),
       ("size", ""), ("size", "5Kı"), ("size", "5kıb"), ("size", "10K\n"), ("size", "10K\n\n"), ("size", "10 \nK"), ("size", "10\n"),
       ("size", " 10K"), ("size", "10K "), ("size", "5 B"), ("size", "1.50 kB"), ("size", "12 cubits"), ("size", "1 BB"), ("size", "fhtagn"),
       ("size", "5ſ"), ("size", "5ß"), ("size", "5ﬁ"), ("size", "5ẗ"), ("size", "5K"), ("size", "10I"), ("size", "10iB"),
@@ -730,10 +733,31 @@ def run(ctx):
             eval_parse_cases(ctx, [(c["fn"], c["s"], (doc[0], int(doc[1])) if doc else None)], "replayed call")
         return
     rng = ctx.rng
-    # 1. fixed corpus: doc examples and past failures
+    # 1. FIXED CORPUS (independent of VERIF_SEED; VERIF_CORPUS_ONLY=1 stops after it).  One minimal input per known
+    #    mechanism:  seed C48-a "1024 Ki" (CORPUS + grid);  seed C48-b dates × time zones (corpus dates below);
+    #    seed C48-c "1 month 15 days" … (CORPUS + GLUE_CORPUS);  repaired 8480b59 "100 M" / "5 B" round trip;
+    #    repaired 396b8df "2009-02-31", "2009-01-16T05:00:00";  known finding: sizes >= 1024 round trip.
     eval_parse_cases(ctx, CORPUS, "corpus call")
     eval_roundtrips(ctx, [(si, n) for n in (0, 1, 5, 999, 1000, 1023, 1024, 1500, 20000, 1000000, 1048576, 1234567, 1234567890123456789,
                                             1152, 1005, 2 ** 53 + 1, 10 ** 30) for si in (True, False)])
+    # every (unit spelling × separating whitespace × all-lower/all-upper) once, deterministically
+    grid = []
+    for u, v in DOC_DURATION.items():
+        for ws in ("", " ", "  ", "\t"):
+            for w in (u, u.upper(), u.capitalize()):
+                grid.append(("dur", "42" + ws + w, ("duration-documented", 42 * v)))
+    for sc in SCALES:
+        for tail, binary in (("", False), ("B", False), ("i", True), ("iB", True)):
+            for ws in ("", " ", "   "):
+                for w in (sc + tail, (sc + tail).lower(), (sc + tail).upper()):
+                    grid.append(("size", "37" + ws + w, ("size-documented-space" if ws else "size-documented", doc_size_value(37, sc, binary))))
+    eval_parse_cases(ctx, grid, "spelling grid")
+    eval_timezones(ctx, timezone_cases(rng, 0), ZONES)          # n = 0: the fixed dates only, rng untouched
+    eval_glue(ctx, GLUE_CORPUS)
+    ctx.count("corpus-cases", ctx.evaluations)
+    if os.environ.get("VERIF_CORPUS_ONLY"):
+        ctx.note("VERIF_CORPUS_ONLY: fixed corpus only, random families skipped")
+        return
     # 2. documented spellings × numbers × whitespace × case; undocumented neighbours; malformed stream
     n = ctx.budget(3000, 120000)
     cases = []
@@ -748,22 +772,10 @@ def run(ctx):
     outs = eval_parse_cases(ctx, cases, "generated call")
     for k in (0, n + n // 2, len(cases) - 1):
         ctx.sample({"fn": cases[k][0], "arg": cases[k][1], "impl": outs[k]})
-    # every (unit spelling × separating whitespace × all-lower/all-upper) once, deterministically
-    grid = []
-    for u, v in DOC_DURATION.items():
-        for ws in ("", " ", "  ", "\t"):
-            for w in (u, u.upper(), u.capitalize()):
-                grid.append(("dur", "42" + ws + w, ("duration-documented", 42 * v)))
-    for sc in SCALES:
-        for tail, binary in (("", False), ("B", False), ("i", True), ("iB", True)):
-            for ws in ("", " ", "   "):
-                for w in (sc + tail, (sc + tail).lower(), (sc + tail).upper()):
-                    grid.append(("size", "37" + ws + w, ("size-documented-space" if ws else "size-documented", doc_size_value(37, sc, binary))))
-    eval_parse_cases(ctx, grid, "spelling grid")
     # 2b. dates under several process time zones (the documented moment is midnight UTC wherever the node runs)
     eval_timezones(ctx, timezone_cases(rng, ctx.budget(120, 3000)), ZONES)
     # 2c. the client.py glue on generated tahoe.cfg files
-    eval_glue(ctx, GLUE_CORPUS + [gen_glue_cfg(rng) for _ in range(ctx.budget(400, 12000))])
+    eval_glue(ctx, [gen_glue_cfg(rng) for _ in range(ctx.budget(400, 12000))])
     # 3. sizes through print-then-parse
     eval_roundtrips(ctx, [(rng.random() < 0.5, gen_size(rng)) for _ in range(ctx.budget(4000, 150000))])
     if ctx.tier == "thorough":
